@@ -52,7 +52,7 @@ Theorem join_queue_sound : forall progs nv n flags t0 s, (nv <= n)%nat -> reacha
 Proof. exact join_queue_proof. Qed.
 Print Assumptions join_queue_sound.
 
-(* below the queues — which stack a vCPU is physically executing on — exclusiveness FAILS: finding F20 *)
+(* below the queues — which stack a vCPU is physically executing on — exclusiveness FAILS: finding F23 *)
 Theorem stack_exclusive_refuted :
   exists s, reachable f20_progs 2 3 f20_flags 1000 s /\
             phys s 0 = Some 2%nat /\ phys s 1 = Some 2%nat /\ s_stuck s = false.
